@@ -32,6 +32,18 @@ func NewAtlasClient(httpClient *http.Client) *AtlasClient {
 	}
 }
 
+// refuseForeignRedirect keeps an Atlas API exchange on the endpoint it was addressed to. Following a redirect to another
+// host would answer that host's digest challenge with the API key pair and store its answer as the cluster's log.
+func refuseForeignRedirect(req *http.Request, via []*http.Request) error {
+	if len(via) > 0 && (req.URL.Host != via[0].URL.Host || req.URL.Scheme != via[0].URL.Scheme) {
+		return fmt.Errorf("refusing redirect from %s://%s to %s://%s", via[0].URL.Scheme, via[0].URL.Host, req.URL.Scheme, req.URL.Host)
+	}
+	if len(via) >= 10 {
+		return fmt.Errorf("stopped after 10 redirects")
+	}
+	return nil
+}
+
 func (c *AtlasClient) getAtlasClusterInfo(ctx context.Context, publicKey, privateKey, projectID, clusterName string) (*AtlasClusterInfo, error) {
 	url := fmt.Sprintf("%s/api/atlas/v2/groups/%s/clusters/%s", c.BaseURL, projectID, clusterName)
 
@@ -50,8 +62,9 @@ func (c *AtlasClient) getAtlasClusterInfo(ctx context.Context, publicKey, privat
 	client := c.HTTPClient
 	if client == http.DefaultClient {
 		client = &http.Client{
-			Transport: digestTransport,
-			Timeout:   c.HTTPClient.Timeout,
+			Transport:     digestTransport,
+			Timeout:       c.HTTPClient.Timeout,
+			CheckRedirect: refuseForeignRedirect,
 		}
 	} else {
 		baseTransport := c.HTTPClient.Transport
@@ -60,8 +73,9 @@ func (c *AtlasClient) getAtlasClusterInfo(ctx context.Context, publicKey, privat
 		}
 		digestTransport.Transport = baseTransport
 		client = &http.Client{
-			Transport: digestTransport,
-			Timeout:   c.HTTPClient.Timeout,
+			Transport:     digestTransport,
+			Timeout:       c.HTTPClient.Timeout,
+			CheckRedirect: refuseForeignRedirect,
 		}
 	}
 
@@ -150,8 +164,9 @@ func (c *AtlasClient) downloadClusterLogsForHost(ctx context.Context, publicKey,
 	client := c.HTTPClient
 	if client == http.DefaultClient {
 		client = &http.Client{
-			Transport: digestTransport,
-			Timeout:   c.HTTPClient.Timeout,
+			Transport:     digestTransport,
+			Timeout:       c.HTTPClient.Timeout,
+			CheckRedirect: refuseForeignRedirect,
 		}
 	} else {
 		baseTransport := c.HTTPClient.Transport
@@ -160,8 +175,9 @@ func (c *AtlasClient) downloadClusterLogsForHost(ctx context.Context, publicKey,
 		}
 		digestTransport.Transport = baseTransport
 		client = &http.Client{
-			Transport: digestTransport,
-			Timeout:   c.HTTPClient.Timeout,
+			Transport:     digestTransport,
+			Timeout:       c.HTTPClient.Timeout,
+			CheckRedirect: refuseForeignRedirect,
 		}
 	}
 
